@@ -48,6 +48,8 @@ ToWave(s, e2) == LET f == Pow10(s.e - e2) IN
                            !.v = IF s.vu = "none" THEN s.v ELSE [k \in 1..Len(s.v) |-> RDiv(s.v[k], f)]]
 
 -----------------------------------------------------------------------------
+RMin(a, b) == IF RLe(a, b) THEN a ELSE b
+RMax(a, b) == IF RLe(a, b) THEN b ELSE a
 (* Integration (C15): trapezoid rule over the samples with lo <= w <= hi *)
 Sel(s, lo, hi) == SelectSeq([k \in 1..Len(s.w) |-> k], LAMBDA k : RLe(lo, s.w[k]) /\ RLe(s.w[k], hi))
 Trapz(s, lo, hi) ==
@@ -57,6 +59,17 @@ Trapz(s, lo, hi) ==
                 ELSE RAdd(RMul(RDiv(RAdd(s.v[idx[j]], s.v[idx[j + 1]]), R(2)), RSub(s.w[idx[j + 1]], s.w[idx[j]])), T(j + 1))
     IN T(1)
 TrapzAll(s) == Trapz(s, s.w[1], s.w[Len(s.w)])
+\* the integral of the piecewise-linear meaning itself over [lo, hi] clipped to the sampled range: the partial intervals at
+\* bounds that fall between samples are included (for bounds at samples it coincides with Trapz).  The statement fixes the
+\* integral only for bounds at samples ("intervals that meet at a sample point"); between samples either reading is accepted.
+TrapzExact(s, lo, hi) ==
+    LET a == RMax(lo, s.w[1])  b == RMin(hi, s.w[Len(s.w)]) IN
+    IF RLe(b, a) THEN R(0)
+    ELSE LET inner == Trapz(s, a, b)
+             idx == Sel(s, a, b)
+             piece(x, y) == RMul(RDiv(RAdd(Interp(s, x), Interp(s, y)), R(2)), RSub(y, x))
+         IN IF Len(idx) = 0 THEN piece(a, b)
+            ELSE RAdd(RAdd(piece(a, s.w[idx[1]]), inner), piece(s.w[idx[Len(idx)]], b))
 
 \* C14: a change of wavelength unit preserves the integral of a density and the values of a unitless spectrum
 ThmToWave(s, e2) == LET t == ToWave(s, e2) IN
@@ -69,8 +82,6 @@ ThmToWave(s, e2) == LET t == ToWave(s, e2) IN
 (* Binary operations (C13) *)
 Op(op, a, b) == CASE op = "add" -> RAdd(a, b) [] op = "sub" -> RSub(a, b) [] op = "mul" -> RMul(a, b)
                   [] op = "div" -> RDiv(a, b)
-RMin(a, b) == IF RLe(a, b) THEN a ELSE b
-RMax(a, b) == IF RLe(a, b) THEN b ELSE a
 MinStep(w) == LET RECURSIVE M(_, _)
                   M(k, cur) == IF k >= Len(w) THEN cur ELSE M(k + 1, RMin(cur, RSub(w[k + 1], w[k])))
               IN M(2, RSub(w[2], w[1]))
